@@ -252,4 +252,32 @@ def handlePlant (toks : List String) (legacy : Bool) : String :=
     | none => "!bad-op"
   | _ => "!bad-op"
 
+/-- `rim positions <k> <preset 0|1> <mask: nil|states|states.f|preset|preset.f|both>`: cells 0…k-1 are the stored positions,
+cell k the configured preset description (current when `preset = 1`).
+→ `shared=<states of the response that are stored cells>,<the response's preset IS the configured cell: 1|0, - if none>|changed=<old cells that differ>` -/
+def handlePositions (toks : List String) : String :=
+  match toks with
+  | [k, pr, mask] =>
+    match k.toNat?, ScVerif.Line.parseBool? pr with
+    | some k, some pr =>
+      let h0 : IH Nat := { item := fun x => x + 10, next := k + 1 }
+      let m : Option (Option (CMask Nat)) :=
+        if mask = "nil" then some none
+        else if mask = "states" then some (some { states := some id, preset := none })
+        else if mask = "states.f" then some (some { states := some (· + 100), preset := none })
+        else if mask = "preset" then some (some { states := none, preset := some id })
+        else if mask = "preset.f" then some (some { states := none, preset := some (· + 100) })
+        else if mask = "both" then some (some { states := some (· + 100), preset := some (· + 100) })
+        else none
+      match m with
+      | none => "!bad-op"
+      | some m =>
+        let r := getPositions h0 (List.range k) (if pr then some k else none) m
+        let shared := (r.states.filter (· < k + 1)).length
+        let ps := match r.preset with | none => "-" | some p => if p < k + 1 then "1" else "0"
+        let changed := ((List.range (k + 1)).filter fun x => r.heap.item x != h0.item x).length
+        s!"shared={shared},{ps}|changed={changed}"
+    | _, _ => "!bad-op"
+  | _ => "!bad-op"
+
 end ScVerif.C07.Rim3
